@@ -876,4 +876,227 @@ theorem mu_close (B : Nat) (cap : Nat) (s : FCSys) (hci : CI cap s) (hpc : s.f.m
   simp only [mu, fmu, mainW, closeBound, hp, List.length_nil]
   omega
 
+/-! ### the parser's table: every input of the script is read (no rune ends the loop) -/
+
+/-- While the main goroutine holds the mutex no callback goroutine can take a step. -/
+theorem cb_none_of_main (f : FSys) (hinv : FInv f) (hh : holdsMain f.mpc = true) (j : Nat) : cbStep f j = none := by
+  have hm := hinv.m1.mpr hh
+  have hnc := nCrit_zero (main_no_crit hinv hh)
+  unfold cbStep
+  cases hcj : f.cbs[j]? with
+  | none => rfl
+  | some c =>
+    obtain ⟨g', pc⟩ := c
+    have := hnc _ (List.mem_of_getElem? hcj)
+    cases pc <;> first | (cases this; done) | simp [hm]
+
+/-- Reachable, the main goroutine has just locked the mutex: the automaton invariant holds of the
+    parser fields as they are (through the simulation by the atomic system and its invariant). -/
+theorem locked_invB (fls : List FLabel) (f : FSys) (out : List Seq)
+    (h : FSys.run handTable FSys.init fls = some (f, out)) (i : Inp) (hpc : f.mpc = .locked i) :
+    VaxisModel.Lemmas.ParserAbs.invB (VaxisModel.Lemmas.ParserAbs.α f.ps) = true := by
+  obtain ⟨hinv, _, ls, b, oa, h1, _, _⟩ := reach_sim handTable handTable_timerOk fls f out h
+  have hS := (VaxisModel.Lemmas.ParserRun.run_SInv ls Sys.init _ oa VaxisModel.Lemmas.ParserRun.SInv_init h1).1
+  have hmid := main_no_mid hinv (by rw [hpc]; rfl)
+  have hpc' : (abs handTable f b).pc = .inRead := by simp [abs, absPc, hpc]
+  have := (hS (by rw [hpc']; decide)).1
+  simpa [abs, absPs, hpc, hmid] using this
+
+/-- No rune makes `anywhere` return nil. -/
+def NS (f : FSys) : Prop := ∀ r, f.mpc = .bumped (.rune r) → stops handTable f.ps (.rune r) = false
+
+theorem NS_step (fls : List FLabel) (f : FSys) (out : List Seq) (h : FSys.run handTable FSys.init fls = some (f, out))
+    (hns : NS f) (l : FLabel) (f' : FSys) (o : List Seq) (hs : FSys.step handTable f l = some (f', o)) : NS f' := by
+  intro r hpc'
+  cases l with
+  | closeSig =>
+    simp only [FSys.step, Option.some.injEq, Prod.mk.injEq] at hs
+    obtain ⟨rfl, _⟩ := hs
+    exact hns r hpc'
+  | readRet i =>
+    simp only [FSys.step] at hs
+    split at hs
+    · cases hs; cases hpc'
+    · cases hs
+  | expire =>
+    simp only [FSys.step] at hs
+    split at hs
+    · cases hs; exact hns r hpc'
+    · cases hs
+  | cb j =>
+    obtain ⟨h1, _, _, _⟩ := cbStep_frame f f' j o hs
+    have hinv := run_inv handTable handTable_timerOk fls _ f out FInv_init h
+    have := cb_none_of_main f hinv (by rw [← h1, hpc']; rfl) j
+    simp only [FSys.step] at hs
+    rw [this] at hs; cases hs
+  | main =>
+    simp only [FSys.step] at hs
+    unfold mainStep at hs
+    cases hpc : f.mpc with
+    | locked i =>
+      rw [hpc] at hs
+      cases hs
+      simp only [MPc.bumped.injEq] at hpc'
+      subst hpc'
+      have := (VaxisModel.Lemmas.ParserAbs.hand_inv_step f.ps (locked_invB fls f out h _ hpc) (.rune r)).2.2
+      simpa [stops, pstep, VaxisModel.Lemmas.ParserAbs.isEof] using this
+    | atSelect => rw [hpc] at hs; simp only at hs; split at hs <;> (cases hs; cases hpc')
+    | inRead => rw [hpc] at hs; cases hs
+    | readDone i => rw [hpc] at hs; cases hs; cases hpc'
+    | stopped i =>
+      rw [hpc] at hs; simp only at hs
+      split at hs
+      · cases hs; cases hpc'
+      · cases hs
+    | bumped i => rw [hpc] at hs; cases hs; cases hpc'
+    | stepped b => rw [hpc] at hs; cases hs; cases b <;> cases hpc'
+    | fin st v =>
+      rw [hpc] at hs
+      cases st <;> simp only at hs
+      case lock =>
+        split at hs
+        · cases hs; cases hpc'
+        · cases hs
+      all_goals (cases hs; cases hpc')
+    | done => rw [hpc] at hs; cases hs
+
+/-- `Close()` has not been called; the script is what is left of a finite input followed by `eof`;
+    the main goroutine is past the read of `eof` only when the script is used up. -/
+structure R (f : FSys) (sc : List Inp) : Prop where
+  nc : f.closeReq = false
+  shape : sc = [] ∨ ∃ rs, sc = inputScript rs
+  pe : pastEof f.mpc = true → sc = []
+
+theorem R_pc (f f' : FSys) (sc : List Inp) (hR : R f sc) (hc : f'.closeReq = f.closeReq)
+    (hp : pastEof f'.mpc = true → pastEof f.mpc = true) : R f' sc :=
+  ⟨by rw [hc]; exact hR.nc, hR.shape, fun h => hR.pe (hp h)⟩
+
+theorem R_step (f f' : FSys) (l : FLabel) (o : List Seq) (sc : List Inp) (hns : NS f) (hR : R f sc)
+    (hs : FSys.step handTable f l = some (f', o)) (hal : allowed sc (.stmt l) = true) :
+    R f' (consume sc (.stmt l)) := by
+  cases l with
+  | closeSig => simp [allowed] at hal
+  | cb j =>
+    obtain ⟨h1, h2, _, _⟩ := cbStep_frame f f' j o hs
+    exact R_pc f f' sc hR h2 (by rw [h1]; exact id)
+  | expire =>
+    simp only [FSys.step] at hs
+    split at hs
+    · cases hs; exact R_pc f _ sc hR rfl id
+    · cases hs
+  | readRet i =>
+    simp only [FSys.step] at hs
+    split at hs
+    · cases hs
+      simp only [allowed, decide_eq_true_eq] at hal
+      cases sc with
+      | nil => simp at hal
+      | cons j rest =>
+        simp only [List.head?_cons, Option.some.injEq] at hal
+        subst hal
+        simp only [consume, List.tail_cons]
+        rcases hR.shape with h | ⟨rs, h⟩
+        · cases h
+        · cases rs with
+          | nil =>
+            simp only [inputScript, List.map_nil, List.nil_append, List.cons.injEq] at h
+            obtain ⟨rfl, rfl⟩ := h
+            exact ⟨hR.nc, Or.inl rfl, fun _ => rfl⟩
+          | cons r rs' =>
+            simp only [inputScript, List.map_cons, List.cons_append, List.cons.injEq] at h
+            obtain ⟨rfl, rfl⟩ := h
+            exact ⟨hR.nc, Or.inr ⟨rs', rfl⟩, fun hp => by simp [pastEof] at hp⟩
+    · cases hs
+  | main =>
+    simp only [FSys.step, consume] at hs ⊢
+    unfold mainStep at hs
+    cases hpc : f.mpc with
+    | atSelect =>
+      rw [hpc] at hs
+      simp only [hR.nc, Bool.false_eq_true, if_false] at hs
+      cases hs
+      exact R_pc f _ sc hR hR.nc.symm (by simp [pastEof])
+    | inRead => rw [hpc] at hs; cases hs
+    | readDone i => rw [hpc] at hs; cases hs; exact R_pc f _ sc hR rfl (by cases i <;> simp [hpc, pastEof])
+    | stopped i =>
+      rw [hpc] at hs; simp only at hs
+      split at hs
+      · cases hs; exact R_pc f _ sc hR rfl (by cases i <;> simp [hpc, pastEof])
+      · cases hs
+    | locked i => rw [hpc] at hs; cases hs; exact R_pc f _ sc hR rfl (by cases i <;> simp [hpc, pastEof])
+    | bumped i =>
+      rw [hpc] at hs; cases hs
+      refine R_pc f _ sc hR rfl ?_
+      cases i with
+      | eof => simp [hpc, pastEof]
+      | rune r => simp [hpc, pastEof, hns r hpc]
+    | stepped b =>
+      rw [hpc] at hs; cases hs
+      exact R_pc f _ sc hR rfl (by cases b <;> simp [hpc, pastEof])
+    | fin st v =>
+      rw [hpc] at hs
+      cases st <;> simp only at hs
+      case lock =>
+        split at hs
+        · cases hs; exact R_pc f _ sc hR rfl (by simp [hpc, pastEof])
+        · cases hs
+      all_goals (cases hs; exact R_pc f _ sc hR rfl (by simp [hpc, pastEof]))
+    | done => rw [hpc] at hs; cases hs
+
+/-- **The parser's table: the scheduler keeps `R`** — in particular when the main goroutine is `done`
+    the whole script has been read. -/
+theorem fdrive_reads_all (cap : Nat) (pol : Policy) : ∀ (fuel : Nat) (s : FCSys) (sc : List Inp),
+    (∃ fls out, FSys.run handTable FSys.init fls = some (s.f, out)) → NS s.f → R s.f sc →
+    R (fdrive handTable cap pol fuel s sc).f (frest handTable cap pol fuel s sc)
+  | 0, _, _, _, _, hR => hR
+  | n + 1, s, sc, ⟨fls, out, hreach⟩, hns, hR => by
+    simp only [fdrive, frest]
+    cases hfe : firstEnabled handTable cap s (cands pol s sc) with
+    | none => exact hR
+    | some res =>
+      obtain ⟨l, s'⟩ := res
+      obtain ⟨hmem, hstep⟩ := firstEnabled_some handTable cap s _ l s' hfe
+      have hal := cands_allowed pol s sc l hmem
+      have hf := fc_step_f handTable cap s s' l hstep
+      cases l with
+      | send =>
+        simp only at hf
+        exact fdrive_reads_all cap pol n s' _ ⟨fls, out, by rw [hf]; exact hreach⟩ (by rw [hf]; exact hns)
+          (by rw [hf]; exact hR)
+      | recv =>
+        simp only at hf
+        exact fdrive_reads_all cap pol n s' _ ⟨fls, out, by rw [hf]; exact hreach⟩ (by rw [hf]; exact hns)
+          (by rw [hf]; exact hR)
+      | stmt fl =>
+        obtain ⟨o, ho⟩ := hf
+        have hrun1 : FSys.run handTable s.f [fl] = some (s'.f, o ++ []) := by simp [FSys.run, ho]
+        exact fdrive_reads_all cap pol n s' _
+          ⟨fls ++ [fl], out ++ (o ++ []), frun_append handTable fls [fl] FSys.init s.f s'.f out _ hreach hrun1⟩
+          (NS_step fls s.f out hreach hns fl s'.f o ho) (R_step s.f s'.f fl o sc hns hR ho hal)
+
+theorem R_init (rs : List Nat) : R FCSys.init.f (inputScript rs) :=
+  ⟨rfl, Or.inr ⟨rs, rfl⟩, fun h => by simp [FCSys.init, pastEof] at h⟩
+
+theorem NS_init : NS FCSys.init.f := by intro r h; simp [FCSys.init] at h
+
+/-- More fuel than the measure changes nothing: the scheduler has stopped by itself. -/
+theorem fdrive_stable (T : Table) (hT : TimerOk T) (B : Nat)
+    (hB : ∀ ps i, (VaxisModel.Model.Parser.step T ps i).out.length ≤ B) (cap : Nat) (pol : Policy) :
+    ∀ (fuel : Nat) (s : FCSys) (sc : List Inp), CI cap s → mu B s sc < fuel → ∀ k,
+      fdrive T cap pol (fuel + k) s sc = fdrive T cap pol fuel s sc ∧
+      ftrace T cap pol (fuel + k) s sc = ftrace T cap pol fuel s sc
+  | 0, _, _, _, hf, _ => by omega
+  | n + 1, s, sc, hci, hf, k => by
+    rw [Nat.add_right_comm n 1 k]
+    simp only [fdrive, ftrace]
+    cases hfe : firstEnabled T cap s (cands pol s sc) with
+    | none => exact ⟨rfl, rfl⟩
+    | some res =>
+      obtain ⟨l, s'⟩ := res
+      obtain ⟨hmem, hstep⟩ := firstEnabled_some T cap s _ l s' hfe
+      have hdec := step_dec T B hB cap s s' l sc hstep (cands_allowed pol s sc l hmem)
+      obtain ⟨h1, h2⟩ := fdrive_stable T hT B hB cap pol n s' (consume sc l) (step_proj T hT cap s s' l hci hstep).1
+        (by omega) k
+      simp only [h1, h2, and_self]
+
 end VaxisModel.Lemmas.ParserRunFineFair
